@@ -48,6 +48,10 @@ func main() {
 			os.Exit(2)
 		}
 		c.Tier = *tier
+		if *dump == "skelsyms" {
+			dumpSkelSyms(c)
+			return
+		}
 		if *dump == "syms" {
 			dumpSyms(c)
 			return
@@ -137,6 +141,15 @@ func main() {
 				}()
 				f(c, r)
 			}()
+			// what was normalised before the rules ran is part of what was analysed
+			if c.norm != nil {
+				if sm := c.norm.summary(); sm != "" {
+					r.Note("%s", sm)
+				}
+			}
+			if sm := c.renames.summary(); sm != "" {
+				r.Note("%s", sm)
+			}
 		}
 		if *tier == "thorough" && err == nil && *only == "" && os.Getenv("VERIF_NO_CONTROLS") == "" {
 			base := map[string]bool{}
